@@ -1,6 +1,6 @@
 (** C18 — entry points of the correspondence check (model side). *)
 From Coq Require Import ZArith List Bool.
-From KV Require Import Base.IEEE Base.Outcome Base.Corr C18.Model.
+From KV Require Import Base.IEEE Base.Outcome Base.Corr C18.Model C18.ModelFlac.
 Import ListNotations.
 Local Open Scope Z_scope.
 
@@ -12,7 +12,17 @@ Inductive case :=
 | CBytes (bs : list Z)
 (** the scheduler model over a decoder with symphonia's WAV packetisation: which frame
     indices reach the ring when streaming [n] frames from [start] *)
-| CStreamStart (n start : Z).
+| CStreamStart (n start : Z)
+(** a FLAC file of the subset written by the harness's own encoder from (bits, channels, rate,
+    block size, frames), optionally with the defect (dk, da, dc) in frame [k] ([k < 0]: none),
+    optionally cut to its first [cut] bytes ([cut < 0]: whole); kira loaded it: the bytes (FNV
+    hash) and the outcome the reference decoder specifies, samples as integers *)
+| CFlac (bits ch rate bs : Z) (frames : list fframe) (k dk da dc cut : Z)
+(** the same file; only the bytes and the verdict of the reference decoder (why it stops, after
+    how many frames) are compared -- with what the harness's monitor assumes *)
+| CFlacStop (bits ch rate bs : Z) (frames : list fframe) (k dk da dc cut : Z)
+(** the conversion of FLAC samples of [bits] bits to f32 *)
+| CFlacConv (bits : Z) (xs : list Z).
 
 Definition fnv (bs : list Z) : Z :=
   fold_left (fun h b => (Z.lxor h b * 1099511628211) mod 2 ^ 64) bs 14695981039346656037.
@@ -41,6 +51,45 @@ Definition wav_land (i : nat) : nat := (Nat.div i PKT * PKT)%nat.
 Fixpoint ticks (n : nat) : list sop :=
   match n with O => [] | S n' => STick :: ticks n' end.
 
+(** FLAC: building blocks of the case terms *)
+Definition FF (n : Z) (subs : list subframe) : fframe := {| f_n := n; f_subs := subs |}.
+Definition mk_defect (k dk da dc : Z) : option (nat * defect) :=
+  if k <? 0 then None else
+  let c := Z.to_nat dc in
+  match dk with
+  | 1 => Some (Z.to_nat k, DResSub c da)
+  | 2 => Some (Z.to_nat k, DResSize da)
+  | 3 => Some (Z.to_nat k, DWasted c)
+  | 4 => Some (Z.to_nat k, DCrc16 da)
+  | 5 => Some (Z.to_nat k, DCrc8 da)
+  | _ => None
+  end.
+Definition flac_file (bits ch rate bs : Z) (frames : list fframe) (k dk da dc cut : Z) : option (list Z) :=
+  match bps_of bits with
+  | None => None
+  | Some b =>
+      let sp := {| fl_bps := b; fl_ch := ch; fl_rate := rate; fl_bs := bs |} in
+      let file := flac_encode_bad sp frames (mk_defect k dk da dc) in
+      Some (if cut <? 0 then file else firstn (Z.to_nat cut) file)
+  end.
+Fixpoint flat_z (frs : list (Z * Z)) : list Z :=
+  match frs with
+  | [] => []
+  | (l, r) :: frs' => l :: r :: flat_z frs'
+  end.
+Definition enc_zload (r : zload) : list Z :=
+  match r with
+  | ZOk rate frs => 0 :: rate :: Z.of_nat (length frs) :: flat_z frs
+  | ZErrChannels => [1]
+  | ZErr => [2]
+  end.
+Definition stop_code (w : fstop) : Z :=
+  match w with
+  | StEnd => 0 | StShort => 1 | StLong => 2 | StTrunc => 3 | StBadHeader => 4 | StResSize => 5
+  | StCrc8 => 6 | StPadding => 7 | StResSub => 8 | StUnsupSub => 9 | StWasted => 10 | StCrc16 => 11
+  | StFuel => 12
+  end.
+
 Definition run (c : case) : list Z :=
   match c with
   | CStatic tag bps ch rate samples =>
@@ -60,5 +109,24 @@ Definition run (c : case) : list Z :=
       | Ok l => flat_map (fun '(fr, p) => if (p <? n')%nat then [match fr with Some x => Z.of_nat x | None => -1 end] else []) l
       | Panic _ => [-2]
       | Hang => [-3]
+      end
+  | CFlac bits ch rate bs frames k dk da dc cut =>
+      match flac_file bits ch rate bs frames k dk da dc cut with
+      | None => [-1]
+      | Some file => fnv file :: enc_zload (snd (flac_ref_load_z file))
+      end
+  | CFlacStop bits ch rate bs frames k dk da dc cut =>
+      match flac_file bits ch rate bs frames k dk da dc cut with
+      | None => [-1]
+      | Some file =>
+          fnv file :: match flac_decode file with
+                      | None => [-2]
+                      | Some (FDec _ frs w) => [stop_code w; Z.of_nat (length frs)]
+                      end
+      end
+  | CFlacConv bits xs =>
+      match bps_of bits with
+      | None => [-1]
+      | Some b => map (fun x => bits_of_f32 (fl_conv b x)) xs
       end
   end.
